@@ -15,7 +15,7 @@ from bctmc.tally import Tally
 
 PROPERTY = 'C02'
 RULE = ('randomised detectors: every labelled 4-node graph with positive weight (binary), every 3-node digraph, 4-node '
-        'signed patterns, a few named 5-6 node graphs; gamma in {1, 1.25}; every built-in objective / qtype; initial '
+        'signed patterns (also with self-connections of either sign), a few named 5-6 node graphs; gamma in {1, 1.25}; every built-in objective / qtype; initial '
         'partition none or one of a fixed subset of the 15 set partitions (all 15 in thorough); hierarchy in {False, True}; '
         'ALL visiting orders at every sweep; deterministic modularity_und/_dir/_und_sign: every graph n<=4 (5 thorough) / '
         'digraph n<=3 (4 thorough) x kci in {None, every set partition} x gamma; non-trivial = configuration with >= 2 '
@@ -74,6 +74,24 @@ def catalogue(thorough):
                 add('modularity_louvain_und_sign', tag, W, gamma=g, qtype=qt)
                 add('modularity_finetune_und_sign', tag, W, gamma=g, qtype=qt, ci=None)
             add('modularity_finetune_und_sign', tag, W, gamma=g, qtype='sta', ci=[1, 1, 2, 2])
+    # signed networks with self-connections of either sign (the gain formulas carry W[u,u] terms)
+    diag_pool = sg[::5] if thorough else sg[::9]
+    for tag, W in diag_pool:
+        for dname, dg in (('dneg', [-3.0, 0.0, 1.0, 0.0]), ('dpos', [2.0, 0.0, 0.0, 1.0]), ('dmix', [0.0, -1.0, -2.0, 0.5])):
+            Wd = W.copy()
+            np.fill_diagonal(Wd, dg)
+            for qt in ('sta', 'gja'):
+                add('modularity_finetune_und_sign', tag + '_' + dname, Wd, gamma=1, qtype=qt, ci=None)
+                add('modularity_finetune_und_sign', tag + '_' + dname, Wd, gamma=1, qtype=qt, ci=[2, 2, 1, 2])
+                add('modularity_louvain_und_sign', tag + '_' + dname, Wd, gamma=1, qtype=qt)
+            add('community_louvain', tag + '_' + dname, Wd, gamma=1, B='negative_asym', ci=None)
+    for tag, W in (und4[::9] if not thorough else und4[::4]):
+        Wd = W.copy()
+        np.fill_diagonal(Wd, [1.0, 0.0, 2.0, 0.0])
+        add('modularity_finetune_und', tag + '_dpos', Wd, gamma=1, ci=None)
+        add('modularity_finetune_und', tag + '_dpos', Wd, gamma=1, ci=[1, 1, 2, 2])
+        add('modularity_louvain_und', tag + '_dpos', Wd, gamma=1, hierarchy=False)
+        add('community_louvain', tag + '_dpos', Wd, gamma=1, B='modularity', ci=None)
     sg3 = [('sg3_%d' % k, np.array([[0, a, b], [a, 0, c], [b, c, 0]], dtype=float))
            for k, (a, b, c) in enumerate([(1, -1, 0), (1, 2, -1), (2, -1, -1), (1, 1, 1), (1, -2, 1), (-1, 1, 0)])]
     for tag, W in sg3 + (sg[::6] if thorough else []):
@@ -96,8 +114,9 @@ def catalogue(thorough):
         for g in ((1, 0.75) if ci is not None else (1,)):
             add('community_louvain', tag, W, gamma=g, B='modularity', ci=ci)
         add('modularity_finetune_und', tag, W, gamma=1, ci=ci)
-        if ci is None and (thorough or len(W) < 6):
+        if ci is None:
             add('modularity_louvain_und', tag, W, gamma=1, hierarchy=True)
+            add('modularity_louvain_und', tag, W, gamma=1, hierarchy=False)
     W = named['two_dtriangles_shared5']
     add('modularity_louvain_dir', 'two_dtriangles_shared5', W, gamma=1, hierarchy=True)
     add('community_louvain', 'two_dtriangles_shared5', W, gamma=1, B='modularity', ci=None)
